@@ -138,7 +138,9 @@ def _run_linpol(case):
     resid["pol_norm_invariant@" + t] = relmax(f2, fab)
     # the same polarization written in the other accepted forms: 3 components (z = 0), tuple / list / ndarray, any norm
     k = [0.01, 1.0, 2.5, 40.0][int(abs(a * 1000)) % 4]
-    forms = [(k * a, k * b, 0), [k * a, k * b, 0.0], np.array([k * a, k * b, 0.0]), np.array([k * a, k * b]), (a, b, 0.0)]
+    import xarray as xr
+    forms = [(k * a, k * b, 0), [k * a, k * b, 0.0], np.array([k * a, k * b, 0.0]), np.array([k * a, k * b]), (a, b, 0.0),
+             xr.DataArray([k * a, k * b, 0.0], coords={"vector": ["x", "y", "z"]}, dims="vector")]      # already labelled, any norm
     worst = 0.0
     for pf in forms:
         worst = max(worst, relmax(_calc_field(det, s, th, dict(o, illum_polarization=pf)).values, fab))
@@ -184,7 +186,9 @@ def _run_multi(case):
         # two- and three-component vectors of arbitrary norm mean the same direction
         pol_arg = {l: (tuple(v) if i % 2 else (2.5 * v[0], 2.5 * v[1], 0.0)) for i, (l, v) in enumerate(shuffled(pol).items())}
     else:
-        pol_arg = xr.concat([to_vector(pol[l]) for l in perm], xr.DataArray(perm, dims="illumination", name="illumination"))
+        # labelled array; every other case with rows of arbitrary (non-unit) length, which mean the same directions
+        rows = [to_vector(pol[l]) * ([1.0, 2.5, 0.04][i % 3] if sum(case["seed"][-1:]) % 2 else 1.0) for i, l in enumerate(perm)]
+        pol_arg = xr.concat(rows, xr.DataArray(perm, dims="illumination", name="illumination"))
     n_arg = nidx if form["n"] == "dict" else (as_array(nidx, perm) if form["n"] == "array_perm" else nidx[labs[0]])
     r_arg = rad if form["r"] == "dict" else rad[labs[0]]
     sc_arg = scaling if form["scaling"] == "dict" else scaling[labs[0]]
